@@ -237,3 +237,14 @@ package ingress
 //@   at call UpdateGlobalConfig#1 assert before-any: calls(SyncIng) == 0
 //@   loop 1 invariant once: calls(UpdGlobal) == 1
 //@ end
+
+// C07 — a TCP service that was created for an ingress backend and got no
+// backend is removed again on every return, also the error returns: the model
+// never keeps a TCP service without a backend
+//@ count TCPAdd = (*converter).addTCPService
+//@ count TCPBackEmpty = (types.BackendID).IsEmpty
+//@ count TCPRemove = (*types.TCPServices).RemoveService
+//@ func (*converter).syncIngressTCP$1
+//@   props C07
+//@   ensures cleanup: calls(TCPAdd) == 1 && (last(TCPAdd).1 == nil ==> calls(TCPBackEmpty) >= 1 && (last(TCPBackEmpty) ==> calls(TCPRemove) == 1))
+//@ end
